@@ -69,10 +69,14 @@ func parseRaceLog(log string, scope []string) []RaceReport {
 		if len(accessStacks) < 2 {
 			continue
 		}
+		repoDir := "/repo/" // tools/snap_matrix.sh links a scratch worktree instead and says so in VERIF_REPO
+		if d := os.Getenv("VERIF_REPO"); d != "" {
+			repoDir = strings.TrimSuffix(d, "/") + "/"
+		}
 		inner := func(stack []string) string {
 			for _, f := range stack {
-				if strings.HasPrefix(f, "/repo/") && !strings.Contains(f, "/utils/vhook/") {
-					return strings.TrimPrefix(f, "/repo/")
+				if strings.HasPrefix(f, repoDir) && !strings.Contains(f, "/utils/vhook/") {
+					return strings.TrimPrefix(f, repoDir)
 				}
 			}
 			return ""
